@@ -36,3 +36,10 @@ Theorem C10_additional_ends_attach_exactly : forall (V : list node) (E : list ed
   forall u, In (u, t) (aug_edges V E S T s t) <-> In u V /\ is_end E T u = true.
 Proof. exact aug_spec_sink. Qed.
 Print Assumptions C10_additional_ends_attach_exactly.
+
+(* the checker for containment of a constraint in ONE route (coverage 1) *)
+From FP Require Import Checkers CheckersProofs.
+Theorem C10_constraint_checker_correct : forall c routes,
+  constraint_b c routes = true <-> exists r, In r routes /\ incl c (EulerProofs1.pairs r).
+Proof. exact constraint_b_correct. Qed.
+Print Assumptions C10_constraint_checker_correct.
